@@ -354,9 +354,15 @@ def gen_puml(rng, tree, modules):
     lines = []
     style = rng.random()
     declared = []
+    alias = {}  # component name -> alias usable in arrows
+    use_alias = rng.random() < 0.35
     for c in comps:
         r = rng.random()
-        if r < 0.3:
+        if use_alias and r < 0.5:
+            alias[c] = "AL" + c
+            lines.append(f"[{c}] as {alias[c]}" if rng.random() < 0.6 else f"component [{c}] as {alias[c]}")
+            declared.append(c)
+        elif r < 0.3:
             lines.append(f"[{c}]")
             declared.append(c)
         elif r < 0.5:
@@ -368,9 +374,18 @@ def gen_puml(rng, tree, modules):
     arrows = []
     pairs = [(a, b) for a in comps for b in comps if a != b]
     rng.shuffle(pairs)
+    mentioned = set(declared)
+
+    def ref(c):
+        # an aliased component is referred to by its alias (bare) or by its name
+        if c in alias and rng.random() < 0.6:
+            return alias[c]
+        return f"[{c}]" if style < 0.5 else c
+
     for a, b in pairs[: rng.randint(1, max(1, len(pairs) // 2))]:
         r = rng.random()
-        la, lb = (f"[{a}]", f"[{b}]") if style < 0.5 else (a, b)
+        la, lb = ref(a), ref(b)
+        mentioned.update((a, b))
         if r < 0.4:
             arrows.append(f"{la} --> {lb}")
         elif r < 0.6:
@@ -381,7 +396,16 @@ def gen_puml(rng, tree, modules):
             arrows.append(f"{lb} <- {la}")
         else:
             arrows.append(f"{la} -down-> {lb}")
+    if alias and rng.random() < 0.6:
+        # the usual way aliases are used: the same component once by name, once by alias
+        a = pick(rng, sorted(alias))
+        targets = [c for c in comps if c != a]
+        rng.shuffle(targets)
+        for k, t in enumerate(targets[:2]):
+            la = (f"[{a}]" if style < 0.5 else a) if k == 0 else alias[a]
+            lt = f"[{t}]" if style < 0.5 else t
+            arrows.insert(rng.randrange(len(arrows) + 1), f"{la} --> {lt}")
+            mentioned.update((a, t))
     text = "@startuml\n\n" + "\n".join(lines) + "\n\n" + "\n".join(arrows) + "\n\n@enduml\n"
-    used = sorted(set(declared) | {c for a in arrows for c in comps
-                                   if c in a.replace("[", " ").replace("]", " ").split()})
+    used = sorted(mentioned)
     return {"text": text, "base": base, "components": used, "tags": True}
